@@ -78,8 +78,13 @@ def postprocess(src, dst):
             if v.get("closed") and not closed:
                 # the server ended the session: that happened when it read the first line it did not
                 # answer; what the harness sent afterwards went nowhere
-                idx = next((i for i, r in enumerate(log) if r.get("rep", {}).get("t") == "none" and r["op"] != "acquire"), None)
-                if idx is None:
+                # (the first record of the trailing run of unanswered records: a pending acquire-lock request is
+                #  legitimately unanswered, so the run may start with some; the disconnect may then be placed
+                #  anywhere from there on - the records behind it are dead either way)
+                idx = len(log) - 1
+                while idx > 0 and log[idx].get("rep", {}).get("t") == "none" and log[idx - 1].get("rep", {}).get("t") == "none" and log[idx - 1].get("op") != "open":
+                    idx -= 1
+                if log and log[idx].get("rep", {}).get("t") != "none":
                     idx = len(log) - 1
                 log.insert(idx + 1, {"op": "closed", "c": cid, "inv": log[idx].get("inv", 0) if log else 0, "ret": INF})
             sess[name] = log
@@ -116,7 +121,7 @@ def postprocess(src, dst):
             streams[k] = lst
         total += sum(len(l) for l in sess.values()) + 1
         out.append({"sessions": {k: ({"log": v, "cid": cids[k]} if cids[k] != k else {"log": v}) for k, v in sess.items()},
-                    "streams": streams, "extmon": bool(sc.get("extmon")),
+                    "streams": streams, "extmon": bool(sc.get("extmon")), "proto": sc.get("proto", "UNIX"),
                     "exact": sc.get("exact", []), "extra": sc.get("extra", []),
                     "auth_required": bool(sc.get("auth_required"))})
     with open(dst, "w") as f:
@@ -313,11 +318,14 @@ def gen_c13(rnd, tier):
     return with_extmon(rnd, out)
 
 
-def with_extmon(rnd, scs, share=0.35):
-    """part of the scenarios run against a server with extended monitoring on (the default setting)"""
+def with_extmon(rnd, scs, share=0.35, tcp=0.3):
+    """part of the scenarios run against a server with extended monitoring on (the default setting);
+    part of the socket scenarios use the TCP endpoint instead of the unix socket"""
     for sc in scs:
         if rnd.random() < share:
             sc["extmon"] = True
+        if "sessions" in sc and rnd.random() < tcp:
+            sc["transport"] = "tcp"
     return scs
 
 
@@ -376,7 +384,7 @@ def gen_c15(rnd, tier):
             return {"op": "get", "c": name, "key": rnd.choice(KEYS), "tid": st["tids"][0]}
         return it
     n = 24 if tier == "quick" else 400
-    return [rounds_scenario(rnd, rnd.randint(2, 3), rnd.randint(3, 6), 2, mk, auth="s3cr3t", first=first) for _ in range(n)]
+    return with_extmon(rnd, [rounds_scenario(rnd, rnd.randint(2, 3), rnd.randint(3, 6), 2, mk, auth="s3cr3t", first=first) for _ in range(n)], share=0.0)
 
 
 def gen_c02(rnd, tier):
@@ -408,7 +416,7 @@ def gen_c02(rnd, tier):
         # a non-unique subscription on the contended key sees every acknowledged update once, in order
         sessions["c9"] = [{"op": "sub", "c": "c9", "key": keys[0], "unique": False, "live": False, "tid": 1, "wait": True}]
         out.append({"sessions": sessions})
-    return out
+    return with_extmon(rnd, out, share=0.2)
 
 
 def gen_c20(rnd, tier):
